@@ -1,27 +1,114 @@
 """C19 — Loader tasks are isolated and safe under any sequence of loader calls (ownership and totality clauses)."""
 import harness
-from facts import norm, call_name, short, subnodes, field_reads, peel_ty
+from facts import norm, call_name, short, subnodes, field_reads, peel_ty, lit_value, AnchorMissing
 from prov import Prov, has_field, has_call
 from mirq import MirQ
-from templates import enclosing_contexts
+from templates import enclosing_contexts, inlined, scope_fns, LOSSY_OR_REORDERING
 
-L = "graphql_loader::"
-TASK = L + "tasks::Task"
-TASKS = L + "tasks::Tasks"
+LC = "graphql_loader"
+L = LC + "::"
 GROW = {"push", "push_str", "insert", "insert_str", "reserve", "reserve_exact", "extend", "extend_from_slice",
         "shrink_to_fit", "shrink_to", "truncate", "clear", "pop", "remove", "retain", "drain", "replace_range",
         "try_reserve", "try_reserve_exact", "add_assign", "write_str", "write_fmt", "write_char"}
-
-# user-written unsafe sites, each with its ownership argument (key: function path -> {unsafe callee: reason})
-UNSAFE_OK = {
-    L + "read_str_ptr": {"core::slice::raw::from_raw_parts": "reads `len` bytes the host wrote into a buffer obtained from alloc_string; copied out immediately (to_vec)"},
-    L + "free_string": {"alloc::string::String::from_raw_parts": "rebuilds the String leaked by alloc_string (len 0, capacity = requested) to free it"},
-    "<" + TASK + " as core::ops::drop::Drop>::drop": {"alloc::string::String::from_raw_parts": "rebuilds each leaked source buffer from the triple recorded in register_file, exactly once (drain)"},
-    "nitrogql_async_runtime::ticket::execute_node_ret": {"core::slice::raw::from_raw_parts": "reads `result_len` bytes handed over by the JS host for one ticket; copied out immediately (to_vec)"},
-    "nitrogql_cli::free_string": {"alloc::string::String::from_raw_parts": "CLI twin of the loader's free_string"},
-}
+ADDERS = {"push", "insert", "push_back", "push_front", "extend", "append", "extend_from_slice"}
+CONSUMERS = {"drain", "pop", "take", "into_iter", "remove", "swap_remove", "split_off"}
+RAW = ("from_raw_parts", "transmute", "from_utf8_unchecked", "::read", "::write", "offset", "from_raw", "get_unchecked",
+       "unwrap_unchecked", "assume_init", "copy_nonoverlapping", "::add", "::sub", "as_ref_unchecked", "zeroed")
+STR_FRP = "alloc::string::String::from_raw_parts"
+SLICE_FRP = "core::slice::raw::from_raw_parts"
 
 
+# ------------------------------------------------------------------------------------------------------- anchors by role
+class Loader:
+    """the loader's types and functions, resolved through the typed program: the `Task`/`Tasks` ADTs of the loader crate wherever
+    their module is, their fields by type, their methods by owner — so that moving `Task` to another file, renaming a private
+    field or turning a tuple into a struct does not disturb a rule"""
+
+    def __init__(self, P):
+        self.P = P
+        self.task = self._adt("Task")
+        self.tasks = self._adt("Tasks")
+        T = self.task.path
+        ft = self.task.field_types()
+        # the record of a leaked source buffer: a `*mut u8` (directly in a tuple, or inside a struct of this crate)
+        self.record_adt = None
+        dl = [n for n, t in ft.items() if "*mut u8" in t]
+        if not dl:
+            for n, t in ft.items():
+                for ap, a in P.adts.items():
+                    if ap.startswith(L) and a.kind == "Struct" and ap in t and any("*mut u8" in x for x in a.field_types().values()):
+                        dl.append(n)
+                        self.record_adt = a
+        if len(dl) != 1:
+            raise AnchorMissing("the field of `%s` that records the leaked source buffers (raw pointer entries) cannot be identified: %s" % (T, dl))
+        self.drop_list = dl[0]
+        docs = [n for n, t in ft.items() if "OperationDocument" in t or any(ap.startswith(L) and ap in t and any("OperationDocument" in x for x in a.field_types().values())
+                                                                             for ap, a in P.adts.items() if a.kind == "Struct")]
+        docs = [n for n in docs if n != self.drop_list]
+        if len(docs) != 1:
+            raise AnchorMissing("the field of `%s` that holds the parsed documents cannot be identified: %s" % (T, docs))
+        self.docs = docs[0]
+        roots = [n for n, t in ft.items() if t == "std::path::PathBuf"]
+        if len(roots) != 1:
+            raise AnchorMissing("the root-file-name field (PathBuf) of `%s` cannot be identified: %s" % (T, roots))
+        self.root = roots[0]
+        drops = [f for f in P.trait_impls("core::ops::drop::Drop", "drop") if f.self_adt == T]
+        if len(drops) != 1:
+            raise AnchorMissing("`impl Drop for %s` not found" % T)
+        self.drop = drops[0]
+        self.reg = P.fn(T + "::register_file")
+        self.new = P.fn(T + "::new", required=False)
+        self.abi = {f.name: f for f in P.fns.values() if f.crate == LC and f.no_mangle and f.abi and f.abi.startswith("C") and "::tests" not in f.path}
+        self.counters = [n for n, t in self.tasks.field_types().items() if t in ("usize", "u32", "u64")]
+
+    def _adt(self, name):
+        hits = [a for p, a in self.P.adts.items() if p.startswith(L) and p.split("::")[-1] == name]
+        if len(hits) != 1:
+            raise AnchorMissing("type `%s` of the loader crate not found (%d candidates)" % (name, len(hits)))
+        return hits[0]
+
+    def method(self, adt, name):
+        return self.P.fn(adt.path + "::" + name)
+
+    def logic(self, name):
+        """the task-logic function behind the ABI export `name`: same name, takes the task table as a parameter (its module may
+        be renamed; the ABI export itself takes raw pointers/ids)"""
+        f = self.P.fn(L + "loader::" + name, required=False)
+        if f is not None:
+            return f
+        hits = [g for g in self.P.by_name.get(name, []) if g.crate == LC and _live(g) and any(peel_ty(t).split("<")[0] == self.tasks.path for t in g.sig_inputs)]
+        if len(hits) != 1:
+            raise AnchorMissing("the loader function `%s` taking the task table not found (%d candidates)" % (name, len(hits)))
+        return hits[0]
+
+
+def _live(f):
+    return not f.derived and "::tests" not in f.path
+
+
+def only_via(P, path, gates, _seen=None):
+    """every call chain (over non-test workspace callers) that reaches `path` passes through a function of `gates`: walking the
+    call graph backwards from `path` without crossing a gate never arrives at a function that nobody calls (an entry point)"""
+    if path in gates:
+        return True
+    seen, todo = set(), [path]
+    while todo:
+        p = todo.pop()
+        if p in seen or p in gates:
+            continue
+        seen.add(p)
+        callers = [c for c in P.callers_of(p) if "::tests" not in c and not P.fns[c].derived and c != p]
+        if not callers:
+            return False
+        todo.extend(callers)
+    return True
+
+
+def reaches(P, src, dst):
+    return dst in P.reachable([src])
+
+
+# ---------------------------------------------------------------------------------------------------------------- R19-a
 def user_unsafe(P):
     out = []
     for f in P.fns.values():
@@ -35,79 +122,254 @@ def user_unsafe(P):
     return out
 
 
+def unsafe_ops(P):
+    """[(fn, kind, callee, node)] every operation that needs `unsafe`, wherever it is written: raw-memory APIs, raw derefs, calls of
+    foreign functions and of workspace `unsafe fn`s — inside user-written unsafe blocks and bodies of `unsafe fn`s"""
+    out, seen = [], set()
+    crates = set(P.crates)
+    for f in sorted(P.fns.values(), key=lambda g: g.path):
+        if f.derived or "::tests" in f.path:
+            continue
+        regions = [n for n in f.walk() if n.get("k") == "Block" and n.get("unsafe") and not n.get("x")]
+        if f.raw.get("unsafe_fn"):
+            regions.append(f.body)
+        for r in regions:
+            for x in subnodes(r):
+                if id(x) in seen:
+                    continue
+                if x.get("k") in ("Call", "MethodCall"):
+                    c = call_name(x)
+                    if not c:
+                        continue
+                    g = P.fns.get(c)
+                    if g is not None:
+                        if g.raw.get("unsafe_fn"):
+                            seen.add(id(x))
+                            out.append((f, "unsafe-fn", c, x))
+                    elif any(w in c for w in RAW):
+                        seen.add(id(x))
+                        out.append((f, "raw", c, x))
+                    elif c.split("::")[0] in crates and x.get("k") == "Call":
+                        seen.add(id(x))
+                        out.append((f, "foreign", c, x))
+                elif x.get("k") == "Unary" and x.get("op") == "Deref" and "*" in (x["e"].get("t") or "")[:1]:
+                    seen.add(id(x))
+                    out.append((f, "deref", "*", x))
+    return out
+
+
 def r19a(P, R):
-    sites = user_unsafe(P)
-    R.count("unsafe_blocks", len(sites))
-    for f, n, cs, derefs in sites:
-        ok_tab = UNSAFE_OK.get(f.path)
-        key = "unsafe:" + f.path
-        if f.crate in ("nitrogql_async_runtime", "nitrogql_config_file") or f.path.startswith(("nitrogql_async_runtime", "nitrogql_config_file")):
-            # FFI to the JS host (execute_node / tickets): extern imports, no raw memory handed out
-            bad = [c for c in cs if ("from_raw_parts" in c or "transmute" in c) and c not in (ok_tab or {})]
-            R.check("R19-a", key, not bad and not derefs, "FFI call into the host runtime (no raw-parts reconstruction)",
-                    "%s performs raw memory operations %s in an FFI block" % (f.path, bad), loc=f.loc())
+    """inventory of unsafe operations.  A listed operation is identified by its callee and its *ownership argument* (who may reach
+    it, what its arguments are), never by the name of the function it is written in: moving it into a helper or an `unsafe fn` of
+    another type keeps it the same operation; one more operation of the same kind is a new one."""
+    ld = Loader(P)
+    blocks = user_unsafe(P)
+    R.count("unsafe_blocks", len(blocks))
+    ops = unsafe_ops(P)
+    R.count("unsafe_operations", len(ops))
+    free_abi = {c: [f.path for f in P.fns.values() if f.crate == c and f.no_mangle and f.name == "free_string" and "::tests" not in f.path] for c in (LC, "nitrogql_cli")}
+    host_copy_crates = (LC, "nitrogql_async_runtime")
+    used = {}
+    n_listed = 0
+
+    def take(cls, limit):
+        used[cls] = used.get(cls, 0) + 1
+        return used[cls] <= limit
+    for f, kind, c, x in ops:
+        pv = None
+        where = "%s" % f.path
+        if kind == "foreign":
+            ok = f.crate in ("nitrogql_async_runtime", "nitrogql_config_file")
+            R.check("R19-a", "unsafe:%s:ffi:%s" % (f.crate, c.split("::")[-1]), ok, "FFI call into the host runtime (no raw memory handed out)",
+                    "%s calls the foreign function %s: only the JS-host bindings of the async runtime may" % (where, c), loc=f.loc())
             continue
-        if ok_tab is None:
-            R.violated("R19-a", key, "unreviewed unsafe block in %s (calls %s): every unsafe operation must be in the ownership table" % (f.path, cs), loc=f.loc())
+        if kind == "unsafe-fn":
+            R.holds("R19-a", "unsafe:%s:calls:%s" % (f.crate, short(c)), "calls the workspace `unsafe fn` %s, whose own operations are inventoried" % short(c), loc=f.loc())
             continue
-        unsafe_calls = [c for c in cs if "from_raw_parts" in c or "transmute" in c or "from_utf8_unchecked" in c or "::read" in c or "::write" in c or "offset" in c]
-        extra = [c for c in unsafe_calls if c not in ok_tab]
-        R.check("R19-a", key, not extra and not derefs, "; ".join(ok_tab.values()),
-                "%s performs unsafe operations outside its ownership table: %s (raw derefs: %d)" % (f.path, extra, len(derefs)), loc=f.loc())
-    R.floor("R19-a", "user-written unsafe blocks", len(sites), 4)
-    # exact set of raw-parts users in the loader crate
+        if kind == "deref":
+            R.violated("R19-a", "unsafe:%s:raw-deref#%d" % (f.crate, take("deref:" + f.crate, 0)), "%s dereferences a raw pointer: not a listed unsafe operation" % where, loc=f.loc())
+            continue
+        cls, why = None, ""
+        args = x.get("args", [])
+        if c == STR_FRP and f.crate in free_abi and len(args) == 3:
+            pv = Prov(f)
+            if only_via(P, f.path, {ld.drop.path}):
+                cls, why = "task-drop-free:" + f.crate, "rebuilds a leaked source buffer from its recorded parts; reachable only from `impl Drop for Task`"
+            elif free_abi[f.crate] and only_via(P, f.path, set(free_abi[f.crate])) and lit_value(args[1]) == "0" \
+                    and all(any(a[0] == "param" for a in pv.atoms(e)) for e in (args[0], args[2])):
+                cls, why = "abi-free-string:" + f.crate, "rebuilds the String leaked by alloc_string (len 0, capacity = requested) to free it; reachable only from the `free_string` export"
+        elif c == SLICE_FRP and f.crate in host_copy_crates:
+            pv = Prov(f)
+            copied = [y for y in f.walk() if y.get("k") == "MethodCall" and y["method"] in ("to_vec", "to_owned", "into_boxed_slice")
+                      and any(a == ("call", SLICE_FRP) for a in pv.atoms(y["recv"]))]
+            escapes = any(ch in (f.sig_output or "") for ch in ("&", "*"))
+            if copied and not escapes:
+                cls, why = "host-buffer-copy:" + f.crate, "reads the bytes the host handed over and copies them out at once (to_vec); nothing borrowed escapes"
+        key_c = c.split("::")[-3] + "::" + c.split("::")[-1] if c.count("::") >= 2 else c
+        if cls and take(cls, 1):
+            n_listed += 1
+            R.holds("R19-a", "unsafe:%s:%s" % (key_c, cls), why, loc=f.loc())
+        elif cls:
+            R.violated("R19-a", "unsafe:%s:%s#%d" % (key_c, cls, used[cls]), "%s performs a further `%s` with the ownership argument `%s`, which is listed once: a second "
+                       "reconstruction of the same buffer would free it twice" % (where, c, cls), loc=f.loc())
+        else:
+            k = "unreviewed:%s:%s" % (f.crate, key_c)
+            used[k] = used.get(k, 0) + 1
+            R.violated("R19-a", "unsafe:%s#%d" % (k, used[k]), "unreviewed unsafe operation `%s` in %s: it matches none of the listed ownership arguments (free of the "
+                       "alloc_string buffer in the `free_string` export; free of the recorded source buffers reachable only from Drop for Task; "
+                       "copy-out of a host buffer)" % (c, where), loc=f.loc())
+    R.floor("R19-a", "user-written unsafe blocks", len(blocks), 4)
+    R.floor("R19-a", "listed unsafe operations", n_listed, 5)
+    # the inventory sees every raw-parts reconstruction of the workspace (none hides in a macro expansion)
     users = sorted(set(f.path for f, c, n in P.ext_callers(lambda p: "from_raw_parts" in p) if "::tests" not in f.path))
-    R.check("R19-a", "raw-parts-users", set(users) <= set(UNSAFE_OK), "raw-parts reconstruction only at the listed sites",
-            "raw-parts reconstruction in unlisted functions: %s" % sorted(set(users) - set(UNSAFE_OK)))
+    seen = {f.path for f, kind, c, x in ops if "from_raw_parts" in c}
+    R.check("R19-a", "raw-parts-users", set(users) <= seen, "every raw-parts reconstruction is in the inventory",
+            "raw-parts reconstruction outside the inventoried unsafe blocks: %s" % sorted(set(users) - seen))
+
+
+# ---------------------------------------------------------------------------------------------------------------- R19-b
+def _component_of_local(f, lid):
+    """position of a local inside a 3-tuple pattern, or the field name it is bound to in a struct pattern (directly: the
+    enclosing `Some(..)` of a desugared loop does not count)"""
+    def direct(p):
+        while p.get("k") in ("Ref", "Deref", "Box") and "p" in p:
+            p = p["p"]
+        return p.get("k") == "Binding" and p.get("local") == lid
+    for x in f.walk():
+        if x.get("k") == "Tuple" and "ps" in x and len(x["ps"]) == 3:
+            for j, p in enumerate(x["ps"]):
+                if direct(p):
+                    return j
+        if x.get("k") == "Struct" and "rest" in x:
+            for fl in x["fields"]:
+                if direct(fl["p"]):
+                    return int(fl["name"]) if str(fl["name"]).isdigit() else fl["name"]
+    return None
+
+
+def _strip(e):
+    while e.get("k") in ("AddrOf", "DropTemps", "Use", "Cast", "Unary") and "e" in e:
+        e = e["e"]
+    return e
 
 
 def r19b(P, R):
-    reg = P.fn(TASK + "::register_file")
-    drop = P.fn("<" + TASK + " as core::ops::drop::Drop>::drop")
-    # who touches source_drop_list
-    touch = sorted(f.path for f in P.fns.values() if (TASK, "source_drop_list") in field_reads(f) and not f.derived)
-    R.check("R19-b", "drop-list-owners", set(touch) <= {reg.path, drop.path, P.fn(TASK + "::new").path},
-            "source_drop_list is touched only by new/register_file/Drop", "source_drop_list is also touched by %s" % touch)
-    pv = Prov(reg)
-    pushes = [c for c in reg.walk() if c.get("k") == "MethodCall" and c["method"] == "push" and c["recv"].get("k") == "Field" and c["recv"]["field"] == "source_drop_list"]
-    R.check("R19-b", "push-once", len(pushes) == 1, "each registered source is recorded once", "register_file records %d triples" % len(pushes), loc=reg.loc())
-    # the triple is (as_mut_ptr, len, capacity) of the same String parameter
-    tups = [n for n in reg.walk() if n.get("k") == "Tup" and len(n["es"]) == 3]
-    ok = False
-    for t in tups:
-        ms = [e.get("method") for e in t["es"]]
-        src_local = reg.params[2].get("local") if len(reg.params) > 2 else None
-        same = all(e.get("k") == "MethodCall" and e["recv"].get("k") == "Path" and e["recv"].get("local") == src_local for e in t["es"])
-        if ms == ["as_mut_ptr", "len", "capacity"] and same:
-            ok = True
-    R.check("R19-b", "triple-shape", ok, "(ptr, len, capacity) taken from the same String, in from_raw_parts order",
-            "register_file does not record (source.as_mut_ptr(), source.len(), source.capacity())", loc=reg.loc())
-    # Drop: drained (each triple consumed exactly once) and passed in order to from_raw_parts
-    drains = [c for c in drop.walk() if c.get("k") == "MethodCall" and c["method"] == "drain" and c["recv"].get("k") == "Field" and c["recv"]["field"] == "source_drop_list"]
-    R.check("R19-b", "drain-once", len(drains) == 1, "Drop consumes the list with drain(..)", "Drop does not drain source_drop_list exactly once", loc=drop.loc())
-    frp = [c for c in drop.walk() if c.get("k") == "Call" and (call_name(c) or "") == "alloc::string::String::from_raw_parts"]
-    ok = len(frp) == 1 and [a.get("name") for a in frp[0]["args"]] == ["ptr", "len", "capacity"]
-    R.check("R19-b", "free-order", ok, "from_raw_parts(ptr, len, capacity) with the recorded components in order",
-            "Drop rebuilds the String with arguments %s" % ([a.get("name") for a in frp[0]["args"]] if frp else None), loc=drop.loc())
+    ld = Loader(P)
+    T, reg, drop, dl = ld.task.path, ld.reg, ld.drop, ld.drop_list
+    # who modifies the drop list: only registration and Drop (and what they delegate to)
+    mutators = set()
+    for f in P.fns.values():
+        if not _live(f) or f.crate != LC:
+            continue
+        for c in f.walk():
+            if c.get("k") == "MethodCall" and c["method"] in (ADDERS | CONSUMERS | GROW) and any(
+                    y.get("k") == "Field" and y.get("field") == dl and norm(y.get("adt")) == T for y in subnodes(c["recv"])):
+                mutators.add(f.path)
+    stray = sorted(p for p in mutators if not only_via(P, p, {reg.path, drop.path}))
+    R.check("R19-b", "drop-list-owners", not stray, "%s is modified only by register_file and Drop (and their helpers)" % dl, "%s is also modified by %s" % (dl, stray))
+    regi = inlined(P, reg)
+    pushes = [c for c in regi.walk() if c.get("k") == "MethodCall" and c["method"] in ADDERS and c["recv"].get("k") == "Field" and c["recv"]["field"] == dl
+              and norm(c["recv"].get("adt")) == T]
+    R.check("R19-b", "push-once", len(pushes) == 1, "each registered source is recorded once", "register_file records %d entries in %s" % (len(pushes), dl), loc=reg.loc())
+    # what is recorded: component -> String accessor (tuple index or field name), all taken from the same String
+    record = None
+    for g in scope_fns(P, reg):
+        for n in g.walk():
+            comps = None
+            if n.get("k") == "Tup" and len(n.get("es", [])) == 3:
+                comps = list(enumerate(n["es"]))
+            elif n.get("k") == "Struct" and "rest" not in n and ld.record_adt is not None and norm(n.get("adt") or "") == ld.record_adt.path:
+                comps = [(fl["name"], fl["e"]) for fl in n.get("fields", []) if "e" in fl]
+            if not comps or len(comps) != 3:
+                continue
+            es = [_strip(e) for _, e in comps]
+            if all(e.get("k") == "MethodCall" and e["method"] in ("as_mut_ptr", "as_ptr", "len", "capacity") and peel_ty(e.get("recv_ty", "")) in ("alloc::string::String", "str") for e in es) \
+                    and any(peel_ty(e.get("recv_ty", "")) == "alloc::string::String" for e in es):
+                bases = {(_strip(e["recv"]).get("local"),) for e in es}
+                record = ({k: e["method"] for (k, _), e in zip(comps, es)}, len(bases) == 1, g)
+    # how it is freed: argument i of String::from_raw_parts <- component
+    frees = [(f, x) for f, kind, c, x in unsafe_ops(P) if c == STR_FRP and f.crate == LC and only_via(P, f.path, {drop.path})]
+    R.floor("R19-b", "reconstruction of the recorded buffers (reachable only from Drop)", len(frees), 1)
+    if record is None:
+        R.undecided("R19-b", "triple-shape", "no (pointer, length, capacity) record built from one String found in register_file or its helpers", loc=reg.loc())
+    else:
+        methods, same, g = record
+        if not same:
+            R.violated("R19-b", "triple-shape", "the recorded parts are taken from different Strings", loc=g.loc())
+        elif sorted(methods.values()) != ["as_mut_ptr", "capacity", "len"]:
+            R.violated("R19-b", "triple-shape", "%s records %s instead of (as_mut_ptr, len, capacity) of the source" % (g.path, sorted(methods.values())), loc=g.loc())
+        else:
+            R.holds("R19-b", "triple-shape", "pointer, length and capacity are taken from the same String", loc=g.loc())
+        for f, x in frees:
+            got = []
+            for a in x["args"]:
+                a = _strip(a)
+                if a.get("k") == "Field":
+                    comp = a.get("field")
+                    comp = int(comp) if str(comp).isdigit() else comp
+                elif a.get("k") == "Path" and "local" in a:
+                    comp = _component_of_local(f, a["local"])
+                else:
+                    comp = None
+                got.append(methods.get(comp) if comp is not None else None)
+            want = ["as_mut_ptr", "len", "capacity"]
+            if got == want:
+                R.holds("R19-b", "free-order", "from_raw_parts(ptr, len, capacity) with the recorded components in order", loc=f.loc())
+            elif None in got:
+                R.undecided("R19-b", "free-order", "the arguments of from_raw_parts in %s cannot be related to the recorded components (%s)" % (f.path, got), loc=f.loc())
+            else:
+                R.violated("R19-b", "free-order", "%s rebuilds the String with (%s) where (pointer, length, capacity) is required" % (f.path, ", ".join(got)), loc=f.loc())
+    # Drop consumes the list: each entry is freed exactly once
+    dropi = inlined(P, drop)
+    cons = [c for c in dropi.walk() if c.get("k") == "MethodCall" and c["method"] in CONSUMERS and any(
+        y.get("k") == "Field" and y.get("field") == dl for y in subnodes(c["recv"]))] + \
+           [c for c in dropi.walk() if c.get("k") == "Call" and (call_name(c) or "").endswith(("mem::take", "mem::replace")) and any(
+               y.get("k") == "Field" and y.get("field") == dl for y in subnodes(c))]
+    if len(cons) == 1:
+        R.holds("R19-b", "drain-once", "Drop consumes the list (`%s`): each entry is freed once" % (cons[0].get("method") or "take"), loc=drop.loc())
+    else:
+        R.undecided("R19-b", "drain-once", "Drop does not consume %s through exactly one drain/take/pop (%d found)" % (dl, len(cons)), loc=drop.loc())
     # EXACT-CAPACITY INVARIANT: into_boxed_str() after recording is safe only if capacity == len for every String reaching register_file
-    rsp = P.fn(L + "read_str_ptr")
+    copies = [f for f, kind, c, x in unsafe_ops(P) if c == SLICE_FRP and f.crate == LC]
+    if len(copies) != 1:
+        raise AnchorMissing("the function that builds ABI strings from host buffers (slice::from_raw_parts in the loader crate) is not unique: %s" % [f.path for f in copies])
+    rsp = copies[0]
     pvr = Prov(rsp)
     tail = rsp.body["b"].get("tail") if rsp.body.get("k") == "BlockExpr" else None
-    a = pvr.atoms(tail) if tail else set()
-    ok = has_call(a, "alloc::string::String::from_utf8") and has_call(a, "to_vec")
-    R.check("R19-b", "exact-capacity:source-construction", ok, "ABI strings are built as String::from_utf8(<slice>.to_vec()) (capacity == len)",
-            "read_str_ptr no longer builds its result with an exact-capacity allocation; register_file would free with a stale capacity/pointer", loc=rsp.loc())
-    # no growing operation on the source between read_str_ptr and register_file (moves only)
-    chain = [P.fn(L + "initiate_task"), P.fn(L + "load_file"), P.fn(L + "loader::initiate_task"), P.fn(L + "loader::load_file"), reg]
-    for f in chain:
+    rets = [tail] if tail else []
+    rets += [n["e"] for n in rsp.walk() if n.get("k") == "Ret" and "e" in n]
+    a = set()
+    for e in rets:
+        a |= pvr.atoms(e)
+    if has_call(a, "alloc::string::String::from_utf8") and has_call(a, "to_vec"):
+        R.holds("R19-b", "exact-capacity:source-construction", "ABI strings are built as String::from_utf8(<slice>.to_vec()) (capacity == len)", loc=rsp.loc())
+    elif any(x[0] == "call" and x[1].split("::")[-1] in ("with_capacity", "push_str", "format", "from_utf8_lossy", "to_string", "repeat", "collect") for x in a):
+        R.violated("R19-b", "exact-capacity:source-construction", "%s no longer builds its result with an exact-capacity allocation; register_file would free with a "
+                   "stale capacity/pointer" % rsp.path, loc=rsp.loc())
+    else:
+        R.undecided("R19-b", "exact-capacity:source-construction", "%s builds its String in a way whose capacity this rule does not know" % rsp.path, loc=rsp.loc())
+    # no growing operation on the source between the ABI and register_file (moves only)
+    entries = [f for f in ld.abi.values() if reaches(P, f, reg.path)]
+    R.floor("R19-b", "ABI entry points that register a source", len(entries), 2)
+    chain = {}
+    for e in entries:
+        for p in P.reachable([e]):
+            f = P.fns[p]
+            if f.crate == LC and _live(f) and (p == reg.path or reaches(P, f, reg.path)):
+                chain[p] = f
+    for f in scope_fns(P, reg, depth=1):
+        if any(peel_ty(t) == "alloc::string::String" for t in f.sig_inputs):
+            chain[f.path] = f
+    for p in sorted(chain):
+        f = chain[p]
         pvf = Prov(f)
-        string_params = {p_.get("local") for p_, t_ in zip(f.params, f.sig_inputs) if t_ == "alloc::string::String"}
+        string_params = {p_.get("local") for p_, t_ in zip(f.params, f.sig_inputs) if peel_ty(t_) == "alloc::string::String"}
         grows = []
 
         def is_source(base):
             if base.get("k") != "Path" or "local" not in base:
                 return False
-            return base["local"] in string_params or has_call(pvf.atoms(base), "read_str_ptr")
+            return base["local"] in string_params or has_call(pvf.atoms(base), rsp.path)
         for c in f.walk():
             if c.get("k") == "MethodCall" and c["method"] in GROW and peel_ty(c.get("recv_ty", "")) == "alloc::string::String":
                 base = c["recv"]
@@ -120,160 +382,287 @@ def r19b(P, R):
         R.check("R19-b", "exact-capacity:no-growth@" + short(f.path), not grows, "the source String is only moved",
                 "%s applies %s to the source String before it is registered: capacity may exceed len, so into_boxed_str() reallocates "
                 "and the recorded (ptr, len, capacity) is stale when the task is dropped" % (f.path, grows), loc=f.loc())
-    # ABI wrappers obtain the source from read_str_ptr
-    for name in ("initiate_task", "load_file"):
-        f = P.fn(L + name)
+    # ABI wrappers obtain the source from the exact-capacity constructor
+    for f0 in sorted(entries, key=lambda g: g.path):
+        f = inlined(P, f0, pred=lambda g: g.path not in chain or g.path in ld.abi)
         pvf = Prov(f)
-        calls = [c for c in f.walk() if c.get("k") == "Call" and (call_name(c) or "") == L + "loader::" + name]
-        ok = bool(calls) and all(has_call(pvf.atoms(c["args"][-1]), "read_str_ptr") and
-                                 not any(x[0] == "call" and x[1].split("::")[-1] in ("with_capacity", "format", "to_owned", "to_string", "clone", "repeat")
-                                         for x in pvf.atoms(c["args"][-1])) for c in calls)
-        R.check("R19-b", "exact-capacity:abi-source@" + name, ok, "the source handed to the loader comes straight from read_str_ptr",
-                "%s passes a source String that is not the direct result of read_str_ptr" % f.path, loc=f.loc())
+        calls = [c for c in f.walk() if c.get("k") in ("Call", "MethodCall") and (call_name(c) or "") in chain and call_name(c) != f0.path]
+        srcs = [a_ for c in calls for a_ in (([c["recv"]] if c.get("k") == "MethodCall" else []) + c["args"]) if peel_ty(a_.get("t", "")) == "alloc::string::String"]
+        key = "exact-capacity:abi-source@" + f0.name
+        if not srcs:
+            R.undecided("R19-b", key, "no String argument handed to the loader found in %s" % f0.path, loc=f0.loc())
+            continue
+        bad = [x for s in srcs for x in pvf.atoms(s) if x[0] == "call" and x[1].split("::")[-1] in ("with_capacity", "format", "to_owned", "to_string", "clone", "repeat")]
+        if all(has_call(pvf.atoms(s), rsp.path) for s in srcs) and not bad:
+            R.holds("R19-b", key, "the source handed to the loader comes straight from %s" % short(rsp.path), loc=f0.loc())
+        else:
+            R.violated("R19-b", key, "%s passes a source String that is not the direct result of %s%s" % (f0.path, short(rsp.path), (" (%s)" % sorted(set(b[1] for b in bad))) if bad else ""), loc=f0.loc())
     # record-before-box ordering is the fragile part: report it as an observation
     R.note("observation (not a violation): register_file records (ptr,len,capacity) before into_boxed_str(); safe only under the "
            "exact-capacity invariant checked above")
 
 
+# ---------------------------------------------------------------------------------------------------------------- R19-c
 def r19c(P, R):
-    drop = P.fn("<" + TASK + " as core::ops::drop::Drop>::drop")
+    ld = Loader(P)
+    drop = ld.drop
     mq = MirQ(P.mir[drop.path])
-    clears = mq.calls_to(lambda p: p.endswith("HashMap::clear") or p.endswith("hash::map::HashMap::clear"))
-    frees = mq.calls_to(lambda p: p == "alloc::string::String::from_raw_parts")
+    freeing = {p for p, f in P.fns.items() if f.crate == LC and _live(f) and any(c == STR_FRP for c in P.callees_of(f)[1])}
+    freeing |= {p for p, f in P.fns.items() if f.crate == LC and _live(f) and p != drop.path and P.reachable([f]) & freeing}
+    frees = mq.calls_to(lambda p: p == STR_FRP or p in freeing)
     R.floor("R19-c", "free sites in Drop", len(frees), 1)
-    ok = bool(clears) and all(any(mq.dominates(c, fr) for c in clears) for fr in frees)
-    R.check("R19-c", "clear-before-free", ok, "loaded_files.clear() dominates every from_raw_parts in Drop (documents borrow the buffers)",
-            "Drop for Task frees the source buffers on a path where loaded_files has not been cleared: the parsed documents "
-            "still borrow the freed text", loc=drop.loc())
-    # and clear() is on loaded_files
-    cl = [c for c in drop.walk() if c.get("k") == "MethodCall" and c["method"] == "clear"]
-    ok = bool(cl) and cl[0]["recv"].get("k") == "Field" and cl[0]["recv"]["field"] == "loaded_files"
-    R.check("R19-c", "clear-target", ok, "what is cleared is loaded_files", "Drop clears something other than loaded_files", loc=drop.loc())
+    # what releases the parsed documents (they borrow the buffers): clear() of the documents map, or taking/replacing it
+    clearing = {p for p, f in P.fns.items() if f.crate == LC and _live(f) and p != drop.path and any(
+        c.get("k") == "MethodCall" and c["method"] == "clear" and c["recv"].get("k") == "Field" and c["recv"]["field"] == ld.docs for c in f.walk())}
+    clears = mq.calls_to(lambda p: p.endswith("HashMap::clear") or p.endswith("hash::map::HashMap::clear") or p in clearing
+                         or p.endswith(("mem::take", "mem::replace")))
+    scope = scope_fns(P, drop)
+    touches_docs = any((ld.task.path, ld.docs) in field_reads(g) for g in scope)
+    if not frees:
+        return
+    if clears and all(any(mq.dominates(c, fr) for c in clears) for fr in frees):
+        R.holds("R19-c", "clear-before-free", "releasing %s dominates every reconstruction of a source buffer in Drop (documents borrow the buffers)" % ld.docs, loc=drop.loc())
+    elif clears or not touches_docs:
+        R.violated("R19-c", "clear-before-free", "Drop for Task frees the source buffers on a path where %s has not been cleared: the parsed documents "
+                   "still borrow the freed text" % ld.docs, loc=drop.loc())
+    else:
+        R.undecided("R19-c", "clear-before-free", "Drop touches %s, but not through a clear()/take this rule recognises" % ld.docs, loc=drop.loc())
+    # and what is cleared is the documents map
+    cl = [c for g in scope for c in g.walk() if c.get("k") == "MethodCall" and c["method"] == "clear"] + \
+         [c for g in scope for c in g.walk() if c.get("k") == "Call" and (call_name(c) or "").endswith(("mem::take", "mem::replace"))]
+    on_docs = [c for c in cl if any(y.get("k") == "Field" and y.get("field") == ld.docs for y in subnodes(c))]
+    if on_docs:
+        R.holds("R19-c", "clear-target", "what is cleared is %s" % ld.docs, loc=drop.loc())
+    elif cl:
+        R.violated("R19-c", "clear-target", "Drop clears something other than %s" % ld.docs, loc=drop.loc())
+    else:
+        R.undecided("R19-c", "clear-target", "no clear()/take in Drop", loc=drop.loc())
 
 
+# ---------------------------------------------------------------------------------------------------------------- R19-d
 def r19d(P, R):
     """total task lookup: unknown/freed ids give an error result, never a trap"""
+    ld = Loader(P)
+    T, TS = ld.task.path, ld.tasks.path
+    get_task, get_task_mut = ld.method(ld.tasks, "get_task"), ld.method(ld.tasks, "get_task_mut")
+    getters = {get_task.path, get_task_mut.path}
     for name in ("get_required_files", "load_file", "emit_js"):
-        f = P.fn(L + "loader::" + name)
+        f0 = ld.logic(name)
+        f = inlined(P, f0, pred=lambda g: g.path not in getters)
         pv = Prov(f)
-        gets = [c for c in f.walk() if c.get("k") == "MethodCall" and (call_name(c) or "") in (TASKS + "::get_task", TASKS + "::get_task_mut")]
-        R.check("R19-d", "lookup:" + name, len(gets) == 1 and ("param", "task_id") in pv.atoms(gets[0]["args"][0]),
+        gets = [c for c in f.walk() if c.get("k") == "MethodCall" and (call_name(c) or "") in getters]
+        id_params = {pv.params.get(p.get("local")) for p, t in zip(f.params, f.sig_inputs) if p.get("k") == "Binding" and t == "usize"}
+        if len(gets) != 1:
+            R.undecided("R19-d", "lookup:" + name, "%s resolves its task through %d accessor calls" % (f0.path, len(gets)), loc=f0.loc())
+            continue
+        R.check("R19-d", "lookup:" + name, any(a[0] == "param" and a[1] in id_params for a in pv.atoms(gets[0]["args"][0])),
                 "task resolved through the Option-returning accessor by the given id",
-                "%s does not resolve its task through get_task(_mut)(task_id)" % f.path, loc=f.loc())
-        # the Option is turned into Err(TaskNotFound): ok_or_else(..)? with TaskNotFound
-        conv = [c for c in f.walk() if c.get("k") == "MethodCall" and c["method"] in ("ok_or_else", "ok_or") and gets and c["recv"] is gets[0]]
-        tn = any(norm(x.get("def", "")).endswith("LoaderError::TaskNotFound") for c in conv for x in subnodes(c))
-        R.check("R19-d", "not-found:" + name, bool(conv) and tn, "None => Err(TaskNotFound)",
-                "%s does not map a missing task to Err(TaskNotFound) (unwrap/expect on an unknown id would trap)" % f.path, loc=f.loc())
+                "%s does not look its task up by the id it is given" % f0.path, loc=f0.loc())
+        # the Option is turned into Err(TaskNotFound); it is never unwrapped
+        acc = f.nodes()
+        gi = next(i for i, (x, _) in enumerate(acc) if x is gets[0])
+        par = acc[acc[gi][1]][0] if acc[gi][1] >= 0 else {}
+        trap = par.get("k") == "MethodCall" and par.get("recv") is gets[0] and par["method"] in ("unwrap", "expect", "unwrap_unchecked")
+        tn = any(norm(x.get("def", "") or x.get("variant", "") or "").endswith("LoaderError::TaskNotFound") for x in f.walk() if x.get("k") in ("Path", "Struct"))
+        if trap:
+            R.violated("R19-d", "not-found:" + name, "%s unwraps the task lookup: an unknown or freed id traps instead of giving an error result" % f0.path, loc=f0.loc())
+        elif not tn:
+            R.violated("R19-d", "not-found:" + name, "%s does not map a missing task to Err(TaskNotFound) (unwrap/expect on an unknown id would trap)" % f0.path, loc=f0.loc())
+        else:
+            R.holds("R19-d", "not-found:" + name, "None => Err(TaskNotFound)", loc=f0.loc())
         # other uses of `tasks`: none
-        tasks_local = f.params[0].get("local") if f.params else None
-        uses = [c["method"] for c in f.walk() if c.get("k") == "MethodCall" and c["recv"].get("k") == "Path" and c["recv"].get("local") == tasks_local]
-        R.check("R19-d", "isolation:" + name, set(uses) <= {"get_task", "get_task_mut"}, "only the addressed task is touched",
-                "%s also uses the task table through %s" % (f.path, uses), loc=f.loc())
+        tasks_local = f0.params[0].get("local") if f0.params else None
+        uses = [call_name(c) or c["method"] for c in f0.walk() if c.get("k") == "MethodCall" and c["recv"].get("k") == "Path" and c["recv"].get("local") == tasks_local]
+        R.check("R19-d", "isolation:" + name, set(uses) <= getters, "only the addressed task is touched",
+                "%s also uses the task table through %s" % (f0.path, sorted(set(uses) - getters)), loc=f0.loc())
     # the accessors are plain map lookups keyed by the id
-    for acc, m in (("get_task", "get"), ("get_task_mut", "get_mut"), ("remove_task", "remove")):
-        f = P.fn(TASKS + "::" + acc)
+    for acc_, m in (("get_task", "get"), ("get_task_mut", "get_mut"), ("remove_task", "remove")):
+        f = ld.method(ld.tasks, acc_)
         pv = Prov(f)
         cs = [c for c in f.walk() if c.get("k") == "MethodCall" and c["method"] == m and "HashMap" in norm(c.get("recv_ty", ""))]
-        ok = len(cs) == 1 and ("param", "task_id") in pv.atoms(cs[0]["args"][0]) and not any(x.get("k") == "MethodCall" and x["method"] in ("unwrap", "expect") for x in f.walk())
-        R.check("R19-d", "accessor:" + acc, ok, "Option-returning lookup by id", "%s is not a total lookup by task_id" % f.path, loc=f.loc())
+        traps = [x["method"] for x in f.walk() if x.get("k") == "MethodCall" and x["method"] in ("unwrap", "expect")] + \
+                [1 for x in f.walk() if x.get("k") == "Index"]
+        id_params = {pv.params.get(p.get("local")) for p, t in zip(f.params, f.sig_inputs) if p.get("k") == "Binding" and t == "usize"}
+        if traps:
+            R.violated("R19-d", "accessor:" + acc_, "%s is not a total lookup by task id (it can trap: %s)" % (f.path, traps), loc=f.loc())
+        elif len(cs) == 1 and any(a[0] == "param" and a[1] in id_params for a in pv.atoms(cs[0]["args"][0])):
+            R.holds("R19-d", "accessor:" + acc_, "Option-returning lookup by id", loc=f.loc())
+        else:
+            R.undecided("R19-d", "accessor:" + acc_, "%s is not a single HashMap::%s by the id parameter" % (f.path, m), loc=f.loc())
     # ids: monotonically increasing counter, never derived from the table's size
-    add = P.fn(TASKS + "::add_task")
+    add = ld.method(ld.tasks, "add_task")
     pv = Prov(add)
-    incs = [n for n in add.walk() if n.get("k") == "AssignOp" and n["l"].get("k") == "Field" and n["l"]["field"] == "next_task_id" and n.get("op") == "+="]
+
+    def counter_write(n):
+        if n.get("k") in ("Assign", "AssignOp") and n["l"].get("k") == "Field" and norm(n["l"].get("adt")) == TS and n["l"]["field"] in ld.counters:
+            return n["l"]["field"]
+        return None
+    incs = [n for n in add.walk() if counter_write(n) and (n.get("op") == "+=" or any(
+        (y.get("k") == "Binary" and y.get("op") == "+") or (y.get("k") == "MethodCall" and y.get("method") in ("checked_add", "wrapping_add", "saturating_add"))
+        for y in subnodes(n["r"])))]
     tail = add.body["b"].get("tail") if add.body.get("k") == "BlockExpr" else None
-    ta = pv.atoms(tail) if tail else set()
-    ok = len(incs) == 1 and has_field(ta, TASKS, "next_task_id") and not any(x[0] == "call" and x[1].endswith("::len") for x in ta)
-    R.check("R19-d", "ids-monotonic", ok, "ids come from a counter that only increases",
-            "add_task does not issue ids from a monotonically increasing counter (an id could be reused while live or after free)", loc=add.loc())
-    writers = sorted(f.path for f in P.fns.values() if not f.derived and any(
-        n.get("k") in ("Assign", "AssignOp") and n["l"].get("k") == "Field" and n["l"]["field"] == "next_task_id" and norm(n["l"].get("adt")) == TASKS for n in f.walk()))
-    R.check("R19-d", "ids-single-writer", writers == [add.path], "only add_task advances the counter", "next_task_id is written by %s" % writers)
-    ins = [c for c in add.walk() if c.get("k") == "MethodCall" and c["method"] == "insert"]
-    ok = len(ins) == 1 and not has_call(pv.atoms(ins[0]["args"][0]), "::len")
-    R.check("R19-d", "ids-insert-key", ok, "the task is stored under the issued id", "add_task stores the task under another key", loc=add.loc())
+    rets = ([tail] if tail else []) + [n["e"] for n in add.walk() if n.get("k") == "Ret" and "e" in n]
+    ta = set()
+    for e in rets:
+        ta |= pv.atoms(e)
+    from_len = any(x[0] == "call" and x[1].endswith("::len") for x in ta)
+    from_counter = any(has_field(ta, TS, c) for c in ld.counters)
+    if from_len or not ld.counters or not from_counter:
+        R.violated("R19-d", "ids-monotonic", "add_task does not issue ids from a monotonically increasing counter (an id could be reused while live or after free)%s"
+                   % (": the id is computed from the table's size" if from_len else ""), loc=add.loc())
+    elif len(incs) == 1:
+        R.holds("R19-d", "ids-monotonic", "ids come from a counter that only increases", loc=add.loc())
+    else:
+        R.undecided("R19-d", "ids-monotonic", "the id derives from a counter field, advanced in a shape this rule does not read (%d increments)" % len(incs), loc=add.loc())
+    writers = sorted(f.path for f in P.fns.values() if _live(f) and f.crate == LC and any(counter_write(n) for n in f.walk()))
+    stray = [w for w in writers if not only_via(P, w, {add.path})]
+    if not ld.counters:
+        R.violated("R19-d", "ids-single-writer", "the task table has no id counter any more: ids are not issued from a monotonically increasing counter")
+    else:
+        R.check("R19-d", "ids-single-writer", not stray and bool(writers), "only add_task advances the counter", "the id counter is written by %s" % (stray or "no function"))
+    ins = [c for c in add.walk() if c.get("k") == "MethodCall" and c["method"] == "insert" and "HashMap" in norm(c.get("recv_ty", ""))]
+    if len(ins) != 1:
+        R.undecided("R19-d", "ids-insert-key", "add_task stores the task through %d insert calls" % len(ins), loc=add.loc())
+    else:
+        R.check("R19-d", "ids-insert-key", not has_call(pv.atoms(ins[0]["args"][0]), "::len"), "the task is stored under the issued id",
+                "add_task stores the task under a key computed from the table's size", loc=add.loc())
     # emit_js: get_root_document's expect is justified by initiate_task registering the root before add_task
-    it = P.fn(L + "loader::initiate_task")
+    it = ld.logic("initiate_task")
     mq = MirQ(P.mir[it.path])
-    regs = mq.calls_to(lambda p: p == TASK + "::register_file")
-    adds = mq.calls_to(lambda p: p == TASKS + "::add_task")
-    ok = bool(regs) and bool(adds) and all(any(mq.dominates(r, a) for r in regs) for a in adds)
-    R.check("R19-d", "root-registered-before-add", ok, "register_file(root) dominates add_task: every live task has its root document",
-            "a task can be added without its root file registered: emit_js's `Root file should be present` expect becomes reachable", loc=it.loc())
-    pvi = Prov(it)
-    news = [c for c in it.walk() if c.get("k") == "Call" and (call_name(c) or "") == TASK + "::new"]
-    regc = [c for c in it.walk() if c.get("k") == "MethodCall" and (call_name(c) or "") == TASK + "::register_file"]
-    ok = bool(news) and bool(regc) and ("param", "file_name") in pvi.atoms(news[0]["args"][0]) and ("param", "file_name") in pvi.atoms(regc[0]["args"][0])
-    R.check("R19-d", "root-name-agrees", ok, "the task's root name and the registered root file are the same value",
-            "initiate_task registers the root source under a different name than the task's root_file_name", loc=it.loc())
+    reg = ld.reg
+
+    def role(p, want, avoid):
+        if p == want:
+            return True
+        g = P.fns.get(p)
+        return g is not None and g.crate == LC and _live(g) and p != it.path and want in P.reachable([g]) and avoid not in P.reachable([g])
+    regs = mq.calls_to(lambda p: role(p, reg.path, add.path))
+    adds = mq.calls_to(lambda p: role(p, add.path, reg.path))
+    if not adds or not regs:
+        both = mq.calls_to(lambda p: p in P.fns and P.fns[p].crate == LC and {reg.path, add.path} <= P.reachable([P.fns[p]]))
+        if both:
+            R.undecided("R19-d", "root-registered-before-add", "initiate_task delegates both registration and add_task to %s" % sorted(set(p for _, p, _ in mq.calls() if p in P.fns and {reg.path, add.path} <= P.reachable([P.fns[p]]))), loc=it.loc())
+        else:
+            R.violated("R19-d", "root-registered-before-add", "initiate_task does not both register the root file and add the task (register calls: %d, add calls: %d): "
+                       "emit_js's `Root file should be present` expect becomes reachable" % (len(regs), len(adds)), loc=it.loc())
+    else:
+        ok = all(any(mq.dominates(r, a) for r in regs) for a in adds)
+        R.check("R19-d", "root-registered-before-add", ok, "register_file(root) dominates add_task: every live task has its root document",
+                "a task can be added without its root file registered: emit_js's `Root file should be present` expect becomes reachable", loc=it.loc())
+    iti = inlined(P, it, pred=lambda g: g.path not in (reg.path, add.path) and (ld.new is None or g.path != ld.new.path))
+    pvi = Prov(iti)
+    news = [c for c in iti.walk() if c.get("k") == "Call" and ld.new is not None and (call_name(c) or "") == ld.new.path]
+    regc = [c for c in iti.walk() if c.get("k") == "MethodCall" and (call_name(c) or "") == reg.path]
+    if not news or not regc:
+        R.undecided("R19-d", "root-name-agrees", "initiate_task does not call Task::new and register_file in a shape this rule reads", loc=it.loc())
+    else:
+        a_new = {x[1] for x in pvi.atoms(news[0]["args"][0]) if x[0] == "param"}
+        a_reg = {x[1] for x in pvi.atoms(regc[0]["args"][0]) if x[0] == "param"}
+        R.check("R19-d", "root-name-agrees", bool(a_new & a_reg), "the task's root name and the registered root file are the same value",
+                "initiate_task registers the root source under a different name (from %s) than the task's root file name (from %s)" % (sorted(a_reg), sorted(a_new)), loc=it.loc())
 
 
+# ---------------------------------------------------------------------------------------------------------------- R19-e
 def r19e(P, R):
-    """thread-local cells are touched only by the ABI wrappers; loader::* takes &mut Tasks and touches no static"""
+    """thread-local cells are touched only by the ABI wrappers (and helpers private to them); task logic takes the table as a
+    parameter and touches no static"""
+    ld = Loader(P)
+    T, TS = ld.task.path, ld.tasks.path
     cells = [L + "TASKS", L + "RESULT", L + "CONFIG"]
-    allowed = {L + n for n in ("initiate_task", "get_required_files", "load_file", "emit_js", "free_task", "get_result_ptr",
-                               "get_result_size", "get_log", "load_config_impl")}
+    abi = {f.path for f in ld.abi.values()}
     users = {}
     for f in P.fns.values():
-        if f.derived or "::tests" in f.path or not f.path.startswith(L):
+        if f.derived or "::tests" in f.path or not f.path.startswith(L) or f.kind not in ("Fn", "AssocFn", "Closure"):
             continue
         for n in f.walk():
             if n.get("k") == "Path" and norm(n.get("def", "")) in cells:
                 users.setdefault(f.path, set()).add(norm(n["def"]))
+    # task logic: whatever is reachable from a function that receives the table or a task explicitly
+    explicit = [f for f in P.fns.values() if f.crate == LC and _live(f) and any(peel_ty(t).split("<")[0] in (T, TS) for t in f.sig_inputs)]
+    logic = P.reachable(explicit)
     for p, cs in sorted(users.items()):
-        R.check("R19-e", "cell-user:" + short(p), p in allowed, "ABI wrapper", "%s touches thread-local %s; only the ABI wrappers may" % (p, sorted(cs)), loc=P.fns[p].loc())
-    R.floor("R19-e", "functions touching the cells", len(users), 8)
-    for p in users:
-        if p.startswith(L + "loader::") or p.startswith(L + "tasks::"):
-            R.violated("R19-e", "loader-touches-static:" + p, "%s (task logic) reaches a process-wide cell: task answers no longer depend only on the task" % p)
-    # no nested borrow of the same cell
+        ok = p in abi or only_via(P, p, abi)
+        R.check("R19-e", "cell-user:" + short(p), ok and p not in logic, "ABI wrapper (or a helper reachable only from the ABI wrappers)",
+                "%s touches thread-local %s; only the ABI wrappers and their private helpers may%s" % (
+                    p, sorted(cs), " (it is task logic: it is reachable from functions that take the task table as a parameter)" if p in logic else ""), loc=P.fns[p].loc())
+    R.floor("R19-e", "thread-local cells in use", len(set().union(*users.values())) if users else 0, 3)
+    R.floor("R19-e", "ABI exports of the loader", len(abi), 10)
+    # no nested borrow of the same cell (seen through helpers that open a cell around a closure they are given)
+    def opens(n, cell):
+        """regions executed while `cell` is being accessed, if node n starts such an access"""
+        if n.get("k") == "MethodCall" and n["method"] in ("with", "with_borrow", "with_borrow_mut") and n["recv"].get("k") == "Path" and norm(n["recv"].get("def", "")) == cell:
+            return list(n["args"])
+        if n.get("k") in ("Call", "MethodCall") and "inl" in n and any(opens(y, cell) is not None for y in _inl_nodes(n)):
+            return [a for a in n["args"] if a.get("k") == "Closure"]
+        return None
+
+    def _inl_nodes(n):
+        return [y for y in subnodes(n["inl"]["body"])]
     for p in sorted(users):
-        f = P.fns[p]
-        acc = f.nodes()
-        for i, (n, _) in enumerate(acc):
-            if n.get("k") == "MethodCall" and n["method"] == "with" and n["recv"].get("k") == "Path" and norm(n["recv"].get("def", "")) in cells:
-                cell = norm(n["recv"]["def"])
-                inner = [x for x in subnodes(n["args"][0]) if x.get("k") == "MethodCall" and x["method"] == "with"
-                         and x["recv"].get("k") == "Path" and norm(x["recv"].get("def", "")) == cell]
-                R.check("R19-e", "no-nested-borrow:%s:%s" % (short(p), cell.split("::")[-1]), not inner,
-                        "no nested access to the same cell", "%s nests two accesses to %s (RefCell double borrow panics)" % (p, cell), loc=f.loc())
+        f = inlined(P, P.fns[p], depth=2)
+        for cell in cells:
+            nested, n_open = False, 0
+            for n in f.walk():
+                regions = opens(n, cell)
+                if regions is None:
+                    continue
+                n_open += 1
+                for r in regions:
+                    for y in subnodes(r):
+                        if y is not n and opens(y, cell) is not None:
+                            nested = True
+            if n_open:
+                R.check("R19-e", "no-nested-borrow:%s:%s" % (short(p), cell.split("::")[-1]), not nested,
+                        "no nested access to the same cell", "%s nests two accesses to %s (RefCell double borrow panics)" % (p, cell), loc=P.fns[p].loc())
     # get_required_files resolves imports relative to the importing file (same rule as the import resolver)
-    g = P.fn(L + "loader::get_required_files")
+    g0 = ld.logic("get_required_files")
+    g = inlined(P, g0)
     pv = Prov(g)
     rr = [c for c in g.walk() if c.get("k") == "Call" and (call_name(c) or "").endswith("resolve_relative_path")]
     R.floor("R19-e", "path resolutions in get_required_files", len(rr), 1)
     for c in rr:
         a0 = pv.atoms(c["args"][0])
-        ok = has_call(a0, "Task::iter_loaded_files") and not has_field(a0, TASK, "root_file_name")
-        R.check("R19-e", "required-relative-to-importer", ok, "required files are resolved relative to the file containing the #import",
-                "get_required_files resolves import paths against something other than the importing file (emit_js resolves relative to the "
-                "importer): the files asked for are not the ones emit needs", loc=g.loc())
-    # required = unresolved: skip test uses contains_file on the same resolved path
-    cf = [c for c in g.walk() if c.get("k") == "MethodCall" and (call_name(c) or "") == TASK + "::contains_file"]
-    ok = bool(cf) and has_call(pv.atoms(cf[0]["args"][0]), "resolve_relative_path")
-    R.check("R19-e", "required-skips-loaded", ok, "already supplied files are not asked for again", "get_required_files does not skip files the task already has", loc=g.loc())
+        from_loaded = has_call(a0, "Task::iter_loaded_files") or has_field(a0, T, ld.docs)
+        from_root = has_field(a0, T, ld.root)
+        if from_loaded and not from_root:
+            R.holds("R19-e", "required-relative-to-importer", "required files are resolved relative to the file containing the #import", loc=g0.loc())
+        else:
+            R.violated("R19-e", "required-relative-to-importer", "get_required_files resolves import paths against %s, not the importing file (emit_js resolves relative to the "
+                       "importer): the files asked for are not the ones emit needs" % ("the task's root file name" if from_root else "something other than the loaded files"), loc=g0.loc())
+    # required = unresolved: skip test looks the resolved path up among the task's files
+    lookups = [c for c in g.walk() if c.get("k") == "MethodCall" and ((call_name(c) or "") in (T + "::contains_file", T + "::get_file")
+                                                                      or (c["method"] in ("contains_key", "get") and c["recv"].get("k") == "Field" and c["recv"]["field"] == ld.docs))]
+    if not lookups:
+        R.undecided("R19-e", "required-skips-loaded", "get_required_files does not test membership among the task's files in a shape this rule reads", loc=g0.loc())
+    else:
+        R.check("R19-e", "required-skips-loaded", any(has_call(pv.atoms(c["args"][0]), "resolve_relative_path") for c in lookups if c["args"]),
+                "already supplied files are not asked for again", "get_required_files does not skip files the task already has (the membership test is not on the resolved path)", loc=g0.loc())
     # ... and the answer is a pure function of the files supplied: the query does not modify the task, and nothing is removed
     # from the list once computed
-    from templates import LOSSY_OR_REORDERING
     muts = []
     for c in g.walk():
         if c.get("k") == "MethodCall":
             cn = call_name(c) or ""
-            if cn.startswith(TASK + "::") and cn in P.fns and (P.fns[cn].sig_inputs or [""])[0].startswith("&mut"):
+            if cn.startswith(T + "::") and cn in P.fns and (P.fns[cn].sig_inputs or [""])[0].startswith("&mut"):
                 muts.append(short(cn))
     trimmed = [c["method"] for c in g.walk() if c.get("k") == "MethodCall" and c["method"] in (LOSSY_OR_REORDERING | {"retain", "retain_mut", "drain", "truncate", "pop", "remove", "clear"})
-               and "PathBuf" in norm(c.get("recv_ty", ""))]
+               and "PathBuf" in norm(c.get("recv_ty", "")) and c["method"] not in ("filter", "filter_map", "insert")]
     R.check("R19-e", "required-is-a-query", not muts and not trimmed, "get_required_files only reads the task and only appends to its answer",
             "get_required_files %s: the files a task asks for depend on how often it was asked, not only on the files supplied (a file "
             "reported once and never supplied disappears from later answers)"
-            % ("; ".join(x for x in (("calls mutating Task methods %s" % muts) if muts else "", ("post-filters its answer with %s" % trimmed) if trimmed else "") if x)), loc=g.loc())
+            % ("; ".join(x for x in (("calls mutating Task methods %s" % muts) if muts else "", ("post-filters its answer with %s" % trimmed) if trimmed else "") if x)), loc=g0.loc())
     # emit_js prints the document of *this* task with the config passed in
-    e = P.fn(L + "loader::emit_js")
+    e0 = ld.logic("emit_js")
+    e = inlined(P, e0, depth=1)
     pve = Prov(e)
     ri = [c for c in e.walk() if c.get("k") == "Call" and (call_name(c) or "").endswith("resolve_operation_imports")]
-    ok = bool(ri) and has_field(pve.atoms(ri[0]["args"][0]), TASK, "root_file_name") and has_call(pve.atoms(ri[0]["args"][0]), "Task::get_root_document")
-    R.check("R19-e", "emit-own-root", ok, "emit resolves imports from the task's own root document and root path",
-            "emit_js does not start from the task's own root document/path", loc=e.loc())
+    if not ri:
+        R.undecided("R19-e", "emit-own-root", "emit_js does not call resolve_operation_imports in a shape this rule reads", loc=e0.loc())
+    else:
+        a = pve.atoms(ri[0]["args"][0])
+        ok = has_field(a, T, ld.root) and (has_call(a, "Task::get_root_document") or has_field(a, T, ld.docs))
+        R.check("R19-e", "emit-own-root", ok, "emit resolves imports from the task's own root document and root path",
+                "emit_js does not start from the task's own root document/path", loc=e0.loc())
 
 
 def r19pc(P, R):
@@ -282,13 +671,18 @@ def r19pc(P, R):
     us = [(f.name, cs) for f, n, cs, d in user_unsafe(SC)]
     ok = len(us) == 1 and us[0][0] == "rebuild" and any("from_raw_parts" in c for c in us[0][1])
     R.check("R19-pc", "control:unsafe", ok, "unsafe-block control detected", "self-check: the unsafe inventory sees %s in the control crate" % us)
+    ops = [(f.name, c) for f, kind, c, x in unsafe_ops(SC) if kind == "raw"]
+    R.check("R19-pc", "control:unsafe-op", any(n == "rebuild" and "from_raw_parts" in c for n, c in ops), "unsafe-operation control detected",
+            "self-check: the unsafe-operation inventory sees %s in the control crate" % ops)
 
 
 RULES = [("R19-pc", r19pc), ("R19-a", r19a), ("R19-b", r19b), ("R19-c", r19c), ("R19-d", r19d), ("R19-e", r19e)]
 EXPLANATION = (
-    "Ownership and totality clauses of the loader, for every call history: (R19-a) the user-written unsafe blocks of the workspace "
-    "are exactly the listed ones, each with its ownership argument; (R19-b) source_drop_list is pushed once per registration with "
-    "(ptr,len,capacity) of the same String and drained once in Drop into from_raw_parts in order, and the exact-capacity invariant "
+    "Ownership and totality clauses of the loader, for every call history: (R19-a) the unsafe operations of the workspace (raw-memory "
+    "APIs, raw derefs, foreign calls) are exactly the listed ones, each identified by its callee and ownership argument (who can reach "
+    "it, what it is given), not by the function it is written in; (R19-b) the drop list of Task (found by type) is pushed once per "
+    "registration with (ptr,len,capacity) of the same String - as a tuple or a record struct - and consumed once in Drop into "
+    "from_raw_parts with the components in order, and the exact-capacity invariant "
     "that makes recording-before-boxing safe holds along the whole ABI path (from_utf8(to_vec) construction, moves only); (R19-c) "
     "loaded_files.clear() dominates every free in Drop (MIR dominators); (R19-d) task ids come from a counter written only by "
     "add_task, lookups are Option-returning and mapped to Err(TaskNotFound), loader functions touch only the addressed task, and "
